@@ -331,8 +331,8 @@ func (it *Item) writeRunner(o AddOpts) error {
 					}
 				}
 				b.WriteString("\t\t\t\tdefault:\n\t\t\t\t\treturn nil, fmt.Errorf(\"HARNESS: no call helper for %s\", h[0])\n\t\t\t\t}\n\t\t\t}\n")
-				fmt.Fprintf(&b, "\t\t\tc := %s.New%sClient(base, copts...)\n", pfAlias, sn)
-				fmt.Fprintf(&b, "\t\t\tr, err := c.%s(context.Background(), req.(*%s), call...)\n", mn, goType(m.Input))
+				fmt.Fprintf(&b, "\t\t\tc := rtClient(o, %q, func() any { return %s.New%sClient(base, copts...) }).(%s.%sClient)\n", sn, pfAlias, sn, pfAlias, sn)
+				fmt.Fprintf(&b, "\t\t\tr, err := c.%s(rtCtx(o), req.(*%s), call...)\n", mn, goType(m.Input))
 				b.WriteString("\t\t\tif r == nil {\n\t\t\t\treturn nil, err\n\t\t\t}\n\t\t\treturn r, err\n")
 			}
 		}
